@@ -142,6 +142,9 @@ func (matrix *DenseInt64Matrix) DIAG() DenseInt64Vector {
   return DenseInt64Vector(v)
 }
 func (matrix *DenseInt64Matrix) SLICE(rfrom, rto, cfrom, cto int) *DenseInt64Matrix {
+  if rfrom < 0 || rfrom > rto || rto > matrix.rows || cfrom < 0 || cfrom > cto || cto > matrix.cols {
+    panic(fmt.Errorf("slice (%d:%d,%d:%d) out of bounds for matrix of dimension %dx%d", rfrom, rto, cfrom, cto, matrix.rows, matrix.cols))
+  }
   m := *matrix
   m.rowOffset += rfrom
   m.rows = rto - rfrom
@@ -303,6 +306,9 @@ func (matrix *DenseInt64Matrix) ConstAt(i, j int) ConstScalar {
   return Int64{&matrix.values[matrix.index(i, j)]}
 }
 func (matrix *DenseInt64Matrix) ConstSlice(rfrom, rto, cfrom, cto int) ConstMatrix {
+  if rfrom < 0 || rfrom > rto || rto > matrix.rows || cfrom < 0 || cfrom > cto || cto > matrix.cols {
+    panic(fmt.Errorf("slice (%d:%d,%d:%d) out of bounds for matrix of dimension %dx%d", rfrom, rto, cfrom, cto, matrix.rows, matrix.cols))
+  }
   m := *matrix
   m.rowOffset += rfrom
   m.rows = rto - rfrom
